@@ -226,9 +226,16 @@ func Register(c *Check) { registry[c.ID] = c }
 func InBubble(t *testing.T, f func()) (panicText string) {
 	defer func() {
 		if r := recover(); r != nil {
-			buf := make([]byte, 1<<16)
-			n := runtime.Stack(buf, false)
-			panicText = fmt.Sprintf("%v\n%s", r, buf[:n])
+			buf := make([]byte, 1<<20)
+			n := runtime.Stack(buf, true)
+			// keep only the goroutines that belong to a bubble
+			var keep []string
+			for _, g := range strings.Split(string(buf[:n]), "\n\n") {
+				if strings.Contains(g, "synctest bubble") {
+					keep = append(keep, g)
+				}
+			}
+			panicText = fmt.Sprintf("%v\n%s", r, strings.Join(keep, "\n\n"))
 		}
 	}()
 	synctest.Test(t, func(t *testing.T) {
@@ -337,11 +344,23 @@ var wdBeat atomic.Int64
 var wdWhat atomic.Value
 
 func startWatchdog(limit time.Duration, outPath string) {
-	wdBeat.Store(time.Now().UnixNano())
+	// beat() is called from inside bubbles, where time.Now() is the fake
+	// clock: progress is therefore a counter, and only this goroutine (outside
+	// any bubble) reads the real clock.
 	go func() {
+		last := wdBeat.Load()
+		since := time.Now()
 		for {
 			time.Sleep(500 * time.Millisecond)
-			if time.Duration(time.Now().UnixNano()-wdBeat.Load()) > limit {
+			if cur := wdBeat.Load(); cur != last {
+				last, since = cur, time.Now()
+				continue
+			}
+			if what, _ := wdWhat.Load().(string); what == "idle" {
+				since = time.Now()
+				continue
+			}
+			if time.Since(since) > limit {
 				buf := make([]byte, 4<<20)
 				n := runtime.Stack(buf, true)
 				what, _ := wdWhat.Load().(string)
@@ -355,7 +374,7 @@ func startWatchdog(limit time.Duration, outPath string) {
 	}()
 }
 func beat(what string) {
-	wdBeat.Store(time.Now().UnixNano())
+	wdBeat.Add(1)
 	wdWhat.Store(what)
 }
 
